@@ -4,6 +4,7 @@ import hashlib
 import json
 import os
 import signal
+import time
 import sys
 import traceback
 
@@ -45,6 +46,29 @@ def base_seed():
 def case_seed(prop, seed, idx, salt=''):
     h = hashlib.sha256(('%s/%s/%s/%s' % (prop, seed, idx, salt)).encode()).digest()
     return int.from_bytes(h[:8], 'big')
+
+
+def out_of_time(frac=0.6):
+    """True once the shard has used `frac` of the wall-clock limit the driver gave it (VERIF_T0 / VERIF_LIMIT).
+    Workloads stop generating new cases then and report what they did, so that a slow or loaded machine yields a
+    smaller exploration instead of a killed shard with nothing to report."""
+    try:
+        t0, limit = float(os.environ['VERIF_T0']), float(os.environ['VERIF_LIMIT'])
+    except (KeyError, ValueError):
+        return False
+    return time.time() > t0 + frac * limit
+
+
+def case_range(idx, total, n, res=None, frac=0.6):
+    """range(idx, total, n) that ends early at the soft deadline; the number of cases cut is recorded."""
+    done = 0
+    for ci in range(idx, total, n):
+        if out_of_time(frac):
+            if res is not None:
+                res.count('cases_cut_by_soft_deadline', len(range(ci, total, n)))
+            return
+        done += 1
+        yield ci
 
 
 class Watchdog(Exception):
